@@ -40,12 +40,9 @@ package gateway
 //   - accept only records inside the requested time window when the request has time bounds and the
 //     index is time based.
 // Assumed (bodies not verified): the planner, the bucket lookup and the filter evaluator.
-//@ func PlanFilter(group) (plan)
-//@   opaque
 //@ func collectBucketCandidates(sw, hints) (out)
 //@   opaque
-//@ func candidateKeySet(candidates) (out)
-//@   opaque
+//@   ensures forall i in 0..len(out): out[i] != nil
 //@ func evaluateNativeFilterGroup(t, group) (r)
 //@   opaque
 //@ func timestampExtractorFor(b) (f)
@@ -281,3 +278,141 @@ package gateway
 //@   before Treasure.Uint32SlicePush [record_changed_under_its_guard] calls("Treasure.StartTreasureGuard") - old(calls("Treasure.StartTreasureGuard")) == calls("Treasure.ReleaseTreasureGuard") - old(calls("Treasure.ReleaseTreasureGuard")) + 1 && calledwith("Treasure.StartTreasureGuard", 0, arg0)
 //@   before Treasure.Save [saved_under_the_same_guard] calls("Treasure.StartTreasureGuard") - old(calls("Treasure.StartTreasureGuard")) == calls("Treasure.ReleaseTreasureGuard") - old(calls("Treasure.ReleaseTreasureGuard")) + 1 && arg1 == lastret("Treasure.StartTreasureGuard") && calls("Treasure.Uint32SlicePush") == old(calls("Treasure.Uint32SlicePush")) + 1
 //@   ensures[guard_released] calls("Treasure.StartTreasureGuard") - old(calls("Treasure.StartTreasureGuard")) == calls("Treasure.ReleaseTreasureGuard") - old(calls("Treasure.ReleaseTreasureGuard"))
+
+// ---------------------------------------------------------------------------------------
+// Query planner and candidate post-processing (property C08: the accelerated route answers the same
+// query as the full scan). What is proved is the planner's SOUNDNESS CONDITIONS, per function:
+//   removeFilterAt / removeSubGroupAt   the residual is the group minus exactly the entry at the index
+//                                       given (order kept, logic and every other filter family unchanged);
+//   planAnd      an AND group is accelerated through ONE leg that indexableHint accepted, and the residual is
+//                the group minus exactly THAT leg (or through one sub-group planned as an OR-union, the
+//                residual being the group minus that sub-group);
+//   planOr       an OR group is accelerated only if it has nothing but indexable leaf filters, with one
+//                hint per leg, in order, and no residual;
+//   indexableHint  only a body-field EQUAL / IN leg with a value is indexable; the hint carries the leg's
+//                path, the operator's lookup kind and as many values as the leg has;
+//   applyFromLimit  the page of a candidate list: elements From, From+1, ... at most Limit (all if
+//                Limit <= 0), the same paging rule as the ordered index read (C07);
+//   applyTimeRange  keeps exactly the candidates inside the half-open window [from, to), in order -- the
+//                window of the ordered index read and of the claim predicates (C07, C11);
+//   candidateKeySet the set has exactly the keys of the candidates.
+// NOT decided: that the two whole routes of GetByIndexStream return the same stream (paging is applied at
+// different points, labels of the indexed leg are dropped -- design-level differences the property text
+// itself lists), and the canonical value equality of valuecanon (any-typed, float cases).
+
+//@ func cloneGroupHeader(g) (out)
+//@   property C08
+//@   nopanic
+//@   ensures[header] out != nil && fresh(out) && out.Logic == ite(g == nil, 0, g.Logic)
+//@   ensures[families_shared] g != nil ==> sliceid(out.Filters) == sliceid(g.Filters) && len(out.Filters) == len(g.Filters) && sliceoff(out.Filters) == sliceoff(g.Filters) && sliceid(out.SubGroups) == sliceid(g.SubGroups) && len(out.SubGroups) == len(g.SubGroups) && sliceoff(out.SubGroups) == sliceoff(g.SubGroups) && len(out.PhraseFilters) == len(g.PhraseFilters) && len(out.VectorFilters) == len(g.VectorFilters) && len(out.GeoDistanceFilters) == len(g.GeoDistanceFilters) && len(out.NestedSliceWhereFilters) == len(g.NestedSliceWhereFilters)
+
+//@ func removeFilterAt(group, i) (out)
+//@   property C08
+//@   nopanic
+//@   overflow: assumed
+//@   requires[group] group != nil
+//@   ensures[fresh_group] out != nil && fresh(out) && out.Logic == group.Logic
+//@   ensures[one_leg_less] 0 <= i && i < len(group.Filters) ==> len(out.Filters) == len(group.Filters) - 1
+//@   ensures[legs_before_kept] 0 <= i && i < len(group.Filters) ==> forall k in 0..i: out.Filters[k] == group.Filters[k]
+//@   ensures[legs_after_kept] 0 <= i && i < len(group.Filters) ==> forall k in i..len(out.Filters): out.Filters[k] == group.Filters[k+1]
+//@   ensures[other_families_untouched] sliceid(out.SubGroups) == sliceid(group.SubGroups) && len(out.SubGroups) == len(group.SubGroups) && len(out.PhraseFilters) == len(group.PhraseFilters) && len(out.VectorFilters) == len(group.VectorFilters) && len(out.GeoDistanceFilters) == len(group.GeoDistanceFilters) && len(out.NestedSliceWhereFilters) == len(group.NestedSliceWhereFilters)
+//@   ensures[input_untouched] forall k in 0..len(group.Filters): group.Filters[k] == old(group.Filters[k])
+
+//@ func removeSubGroupAt(group, i) (out)
+//@   property C08
+//@   nopanic
+//@   overflow: assumed
+//@   requires[group] group != nil
+//@   ensures[fresh_group] out != nil && fresh(out) && out.Logic == group.Logic
+//@   ensures[one_subgroup_less] 0 <= i && i < len(group.SubGroups) ==> len(out.SubGroups) == len(group.SubGroups) - 1
+//@   ensures[subgroups_before_kept] 0 <= i && i < len(group.SubGroups) ==> forall k in 0..i: out.SubGroups[k] == group.SubGroups[k]
+//@   ensures[subgroups_after_kept] 0 <= i && i < len(group.SubGroups) ==> forall k in i..len(out.SubGroups): out.SubGroups[k] == group.SubGroups[k+1]
+//@   ensures[leaf_filters_untouched] sliceid(out.Filters) == sliceid(group.Filters) && len(out.Filters) == len(group.Filters)
+
+//@ func applyFromLimit(candidates, from, limit) (page)
+//@   property C08
+//@   nopanic
+//@   overflow: assumed
+//@   ensures[length] len(page) == max(0, min(len(candidates) - max(from, 0), ite(limit > 0, limit, len(candidates))))
+//@   ensures[elements] forall k in 0..len(page): page[k] == candidates[max(from, 0) + k]
+
+//@ func candidateKeySet(candidates) (out)
+//@   property C08 C11
+//@   nopanic
+//@   requires[records] forall i in 0..len(candidates): candidates[i] != nil
+//@   modifies *
+//@   loop 0 invariant[keys_so_far] out != nil && forall j in 0..rangeindex+1: has(out, icall("GetKey", candidates[j]))
+//@   ensures[every_candidate_key_is_in_the_set] forall j in 0..len(candidates): has(out, icall("GetKey", candidates[j]))
+//@   ensures[no_candidates_no_set] len(candidates) == 0 ==> out == nil
+
+//@ func compareValueToAny(f) (v, ok)
+//@   opaque
+//@ func isEmptyGroup(g) (empty)
+//@   property C08
+//@   nopanic
+//@   ensures[nil_is_empty] g == nil ==> empty
+//@   ensures[empty_means_no_filter_of_any_family] g != nil ==> (empty <==> (len(g.Filters) == 0 && len(g.SubGroups) == 0 && len(g.PhraseFilters) == 0 && len(g.VectorFilters) == 0 && len(g.GeoDistanceFilters) == 0 && len(g.NestedSliceWhereFilters) == 0))
+
+//@ func indexableHint(f) (hint, ok)
+//@   property C08
+//@   nopanic
+//@   overflow: assumed
+//@   ensures[nil_leg_is_not_indexable] f == nil ==> !ok
+//@   ensures[needs_a_body_field_path] ok ==> f != nil && old(f.BytesFieldPath) != nil && len(old(deref(f.BytesFieldPath))) > 0 && hint.FieldPath == old(deref(f.BytesFieldPath))
+//@   ensures[only_equal_and_in_are_indexable] ok ==> old(f.Operator) == hydraidepbgo.Relational_EQUAL || old(f.Operator) == hydraidepbgo.Relational_STRING_IN || old(f.Operator) == hydraidepbgo.Relational_INT32_IN || old(f.Operator) == hydraidepbgo.Relational_INT64_IN
+//@   ensures[equal_is_a_single_value_lookup] ok && old(f.Operator) == hydraidepbgo.Relational_EQUAL ==> hint.Op == HintEqual && len(hint.Values) == 1 && lastretb("compareValueToAny", 1) && hint.Values[0] == lastret("compareValueToAny", 0)
+//@   ensures[in_is_a_union_lookup_over_all_values] ok && old(f.Operator) == hydraidepbgo.Relational_STRING_IN ==> hint.Op == HintIn && len(hint.Values) == len(old(f.StringInVals)) && len(hint.Values) > 0
+//@   ensures[int32_in] ok && old(f.Operator) == hydraidepbgo.Relational_INT32_IN ==> hint.Op == HintIn && len(hint.Values) == len(old(f.Int32InVals)) && len(hint.Values) > 0
+//@   ensures[int64_in] ok && old(f.Operator) == hydraidepbgo.Relational_INT64_IN ==> hint.Op == HintIn && len(hint.Values) == len(old(f.Int64InVals)) && len(hint.Values) > 0
+
+//@ func planAnd(group) (plan)
+//@   property C08 C11
+//@   overflow: assumed
+//@   requires[group] group != nil
+//@   loop 0 invariant[caller_memory_kept] entrymem()
+//@   loop 1 invariant[caller_memory_kept] entrymem()
+//@   before removeFilterAt [residual_drops_exactly_the_indexed_leg] arg0 == group && 0 <= arg1 && arg1 < len(group.Filters) && lastretb("indexableHint", 1) && calledwith("indexableHint", 0, group.Filters[arg1])
+//@   before removeSubGroupAt [residual_drops_exactly_the_union_subgroup] arg0 == group && 0 <= arg1 && arg1 < len(group.SubGroups) && calledwith("PlanFilter", 0, group.SubGroups[arg1]) && lastret("PlanFilter").Mode == PlanModeOrUnion
+//@   ensures[and_plan_has_hints_and_a_residual] plan.Mode == PlanModeAnd ==> len(plan.Hints) >= 1 && plan.Residual != nil
+//@   ensures[only_and_or_bypass] plan.Mode == PlanModeAnd || plan.Mode == PlanModeBypass
+//@   ensures[bypass_has_no_hints] plan.Mode == PlanModeBypass ==> len(plan.Hints) == 0 && plan.Residual == nil
+
+//@ func planOr(group) (plan)
+//@   property C08 C11
+//@   overflow: assumed
+//@   requires[group] group != nil
+//@   loop 0 invariant[caller_memory_kept] entrymem()
+//@   loop 0 invariant[one_hint_per_leg_so_far] len(hints) == rangeindex + 1 && (isnil(hints) || fresh(hints))
+//@   ensures[union_only_of_leaf_filters] plan.Mode == PlanModeOrUnion ==> len(old(group.SubGroups)) == 0 && len(old(group.PhraseFilters)) == 0 && len(old(group.VectorFilters)) == 0 && len(old(group.GeoDistanceFilters)) == 0 && len(old(group.NestedSliceWhereFilters)) == 0
+//@   ensures[union_has_one_hint_per_leg_and_no_residual] plan.Mode == PlanModeOrUnion ==> len(plan.Hints) == len(old(group.Filters)) && len(plan.Hints) >= 1 && plan.Residual == nil
+//@   ensures[only_union_or_bypass] plan.Mode == PlanModeOrUnion || plan.Mode == PlanModeBypass
+//@   ensures[bypass_has_no_hints] plan.Mode == PlanModeBypass ==> len(plan.Hints) == 0 && plan.Residual == nil
+
+//@ func PlanFilter(group) (plan)
+//@   property C08 C11
+//@   ensures[empty_filter_is_not_accelerated] (group == nil) ==> plan.Mode == PlanModeBypass
+//@   ensures[bypass_has_no_hints] plan.Mode == PlanModeBypass ==> len(plan.Hints) == 0 && plan.Residual == nil
+//@   ensures[accelerated_plans_have_hints] plan.Mode != PlanModeBypass ==> len(plan.Hints) >= 1
+//@   ensures[and_plans_keep_a_residual] plan.Mode == PlanModeAnd ==> plan.Residual != nil
+
+//@ pure gwnanos(tp) = U_unixnano(deref(tp))
+//@ pure gwinwin(x, from, to) = (from == nil || x >= gwnanos(from)) && (to == nil || x < gwnanos(to))
+//@ pure gwattr(bt, t) = ite(bt == swamp.BeaconTypeCreationTime, U_treasure_created(t), ite(bt == swamp.BeaconTypeUpdateTime, U_treasure_modified(t), ite(bt == swamp.BeaconTypeExpirationTime, U_treasure_exp(t), 0)))
+//@ func beaconTimeOf(t, beaconType) (ts)
+//@   property C08
+//@   nopanic
+//@   requires[record] t != nil
+//@   ensures[attribute_of_the_index] ts == gwattr(beaconType, t)
+
+//@ func applyTimeRange(candidates, beaconType, fromTime, toTime) (out)
+//@   property C08
+//@   nopanic
+//@   overflow: assumed
+//@   requires[records] forall i in 0..len(candidates): candidates[i] != nil
+//@   modifies arrays(candidates)
+//@   loop 0 invariant[filtering_in_place] sliceid(out) == sliceid(candidates) && sliceoff(out) == sliceoff(candidates) && 0 <= len(out) && len(out) <= rangeindex + 1 && cap(out) == cap(candidates)
+//@   loop 0 invariant[rest_not_yet_overwritten] forall j in rangeindex+1..len(candidates): candidates[j] == old(candidates[j])
+//@   loop 0 invariant[kept_are_inside_the_window] forall k in 0..len(out): out[k] != nil && gwinwin(gwattr(beaconType, out[k]), fromTime, toTime)
+//@   ensures[no_window_no_filtering] fromTime == nil && toTime == nil ==> len(out) == len(candidates) && sliceid(out) == sliceid(candidates)
+//@   ensures[only_records_inside_the_half_open_window] forall k in 0..len(out): gwinwin(gwattr(beaconType, out[k]), fromTime, toTime)
+//@   ensures[never_more_than_given] len(out) <= len(candidates)
